@@ -209,6 +209,7 @@ class Ctx:
             raise tlc.MachineryError("%d case(s) could not be judged; first: %s" % (len(und), und[0]))
         if und:
             self.notes["undecidable_cases"] = len(und)
+        os.chdir("/")
         self.cleanup()
         shutil.rmtree(self._tmproot, ignore_errors=True)
         wall = time.time() - self.t0
